@@ -13,7 +13,8 @@ P("C17",
   level_note="PARTIAL end to end: the pre-flush quiesce, the bank/write-buffer path of the write-backs and the control middleware are not modelled; they are "
              "exercised on real hierarchies: random workload, Drain+Flush of every write-back level through the Control ports, then every written line of the "
              "backing Storage is compared in Coq with the reference memory computed by the verified requester-view automaton, and the real post-flush "
-             "directory must equal finalize(select(pre-flush directory)) exactly.",
+             "directory must equal finalize(select(pre-flush directory)) exactly. Runs have 1-4 rounds (workload, Drain+Flush, Enable, ...) so that state carried from one flush to the next is exercised; "
+             "the hook tie also processes sequences of flush requests through the flusher's own intake.",
   assumptions=["no two in-flight requests touch the same byte; a line is always accessed with the same PID",
                "the flush is issued after a Drain acknowledgement (the protocol's legal order)"],
   trusted=["modelled, not verified: cache/writeback/flusher.go (prepareBlockToFlushList, marking loop of finalizeFlushing)",
